@@ -16,8 +16,8 @@ OUT=/root/scratch/seedrun_$ID.log
 VERIF_REPO=$R VERIF_OUT=$O ./vcheck $PROP --tier ${SEED_TIER:-quick} "$@" > $OUT 2>&1
 rc=$?
 rm -rf $R $O
-if [ $rc = 1 ] && grep -q "^VIOLATION property=$PROP" $OUT; then
-  echo "$ID: DETECTED by $PROP ($(grep -c '^VIOLATION' $OUT) violation lines)"; grep -A2 "^VIOLATION" $OUT | head -6
+if [ $rc = 1 ] && grep -aq "^VIOLATION property=$PROP" $OUT; then
+  echo "$ID: DETECTED by $PROP ($(grep -ac "^VIOLATION" $OUT) violation lines)"; grep -a -A2 "^VIOLATION" $OUT | head -6
 else
   echo "$ID: MISSED by $PROP (rc=$rc)"; tail -3 $OUT
 fi
